@@ -55,7 +55,7 @@ func genC16(rng *rand.Rand, tier string) *sim.Plan {
 	nn := 2 + rng.IntN(2)
 	p.Broker.Nodes = nn
 	p.Sched.MaxSteps = 1500000
-	scen := pick(rng, []string{"cuts", "cuts", "failjoin", "kill", "calm"})
+	scen := pick(rng, []string{"cuts", "cuts", "failjoin", "failjoin", "kill", "calm", "calm", "ackloss"})
 	p.Params = map[string]string{
 		"scenario":          scen,
 		"fed_cutprob":       fmt.Sprint(pick(rng, []float64{0.01, 0.03, 0.1, 0.25})),
@@ -64,8 +64,8 @@ func genC16(rng *rand.Rand, tier string) *sim.Plan {
 		"fed_notice_max_us": fmt.Sprint(pick(rng, []int{1000, 300000, 2000000})),
 		"fed_gossip_max_us": fmt.Sprint(pick(rng, []int{5000, 800000})),
 	}
-	if scen == "calm" {
-		p.Params["fed_cutprob"] = "0"
+	if scen == "calm" || scen == "ackloss" {
+		p.Params["fed_cutprob"] = "0" // ackloss: only the injected cut, so that more than 100 applied events stay un-acknowledged
 	}
 	l := fedClients(p, nn, rng)
 	api := -1
@@ -90,6 +90,20 @@ func genC16(rng *rand.Rand, tier string) *sim.Plan {
 		}
 	}
 	churn := func(ph *sim.Phase, n int) {
+		if chance(rng, 0.25) {
+			// the last holder of a topic goes (session end or UNSUBSCRIBE) while the other churn client of the
+			// node subscribes that very topic: the events must be queued in the order the reference count changed
+			f := pick(rng, c16filters)
+			a, b := l.chA[n], l.chB[n]
+			ph.Ops = append(ph.Ops, sim.Op{K: "unsubscribe", C: b, Filters: []string{f}}, sim.Op{K: "subscribe", C: a, Subs: []mqttc.Sub{{Filter: f, QoS: 1}}})
+			if chance(rng, 0.6) {
+				ph.Ops = append(ph.Ops, sim.Op{K: "disconnect", C: a}, sim.Op{K: "connect", C: a, Node: n, Clean: true})
+			} else {
+				ph.Ops = append(ph.Ops, sim.Op{K: "unsubscribe", C: a, Filters: []string{f}})
+			}
+			ph.Ops = append(ph.Ops, sim.Op{K: "subscribe", C: b, Subs: []mqttc.Sub{{Filter: f, QoS: 1}}, Delay: sim.Us(rng.IntN(2*p.Net.LatMaxUs + 20))})
+			return
+		}
 		for _, c := range []int{l.chA[n], l.chB[n]} {
 			if chance(rng, 0.15) {
 				// the whole session ends (clean session): its subscriptions go at once, while the other churn
@@ -128,6 +142,20 @@ func genC16(rng *rand.Rand, tier string) *sim.Plan {
 		}
 		p.Phases = append(p.Phases, ph)
 		switch scen {
+		case "ackloss":
+			if r == 0 {
+				// more events than the receiver's duplicate cache holds (100) are delivered and applied while
+				// their acknowledgements hang in the network; then the stream breaks and the acknowledgements are lost
+				p.Phases = append(p.Phases, sim.Phase{Ops: []sim.Op{{K: "api_custom", C: nextAPI(), Custom: "fed_hold_acks", Mode: "on", Target: fedNode(a) + ">" + fedNode(b)}}})
+				var burst sim.Phase
+				for i := 0; i < 104+rng.IntN(30); i++ {
+					msg++
+					burst.Ops = append(burst.Ops, sim.Op{K: "publish", C: l.pub[a], Topic: fmt.Sprintf("m/%d", a), QoS: 1, Payload: fmt.Sprintf("p%d", msg), NoWait: true})
+				}
+				p.Phases = append(p.Phases, burst)
+				p.Phases = append(p.Phases, sim.Phase{Ops: []sim.Op{{K: "api_custom", C: nextAPI(), Custom: "fed_cut", Target: fedNode(a) + ">" + fedNode(b)}}})
+				p.Phases = append(p.Phases, sim.Phase{Ops: []sim.Op{{K: "api_custom", C: nextAPI(), Custom: "fed_hold_acks", Mode: "off", Target: fedNode(a) + ">" + fedNode(b)}}})
+			}
 		case "failjoin":
 			if chance(rng, 0.7) {
 				// b is reported failed to a (possibly also the other way round), work goes on, then it joins again
@@ -153,6 +181,16 @@ func genC16(rng *rand.Rand, tier string) *sim.Plan {
 				}
 				if chance(rng, 0.5) {
 					churn(&j, b)
+				}
+				if chance(rng, 0.6) {
+					// subscriptions of the node that resynchronises go away while it queues its full state
+					for _, c := range []int{l.chA[b], l.chB[b], l.chA[a], l.chB[a]} {
+						for _, f := range c16filters[:4] {
+							if chance(rng, 0.5) {
+								j.Ops = append(j.Ops, sim.Op{K: "unsubscribe", C: c, Filters: []string{f}, Delay: sim.Us(rng.IntN(1200000))})
+							}
+						}
+					}
 				}
 				p.Phases = append(p.Phases, j)
 			}
@@ -326,7 +364,7 @@ func oracleC16(p *sim.Plan, out *sim.Outcome) []sim.Violation {
 			if !settled {
 				continue // the premise (faults stopped, streams had time to settle) does not hold in this run
 			}
-			sessionLasts := scen == "cuts" || scen == "calm" || pi.phase > dumpPhase
+			sessionLasts := scen == "cuts" || scen == "calm" || scen == "ackloss" || pi.phase > dumpPhase
 			if scen == "kill" && pi.phase <= dumpPhase {
 				sessionLasts = false
 			}
